@@ -169,7 +169,7 @@ fn push_recover(ops: &mut Vec<String>, rng: &mut Rng, i: u64, now: u64) {
 fn gen_straddle_case(rng: &mut Rng) -> Vec<String> {
     let n = rng.range(1, 3) as usize;
     let classic = if rng.chance(4, 5) { 1 } else { 0 };
-    let mut now: u64 = 1_000_000 + rng.below(1000);
+    let mut now: u64 = rng.time_base(1_000_000, 1000);
     let mut ops = vec![format!("new {n}")];
     for i in 0..n {
         ops.push(format!("setc {i} c=1 lr={}", now - rng.below(500)));
@@ -288,7 +288,7 @@ impl Component for Conn {
             1 => 0x7fff_0000 + rng.below(0x8000) as u32,
             _ => (rng.next_u64() as u32) & 0x7fff_ffff,
         };
-        let mut now: u64 = 1_000_000 + rng.below(1000);
+        let mut now: u64 = rng.time_base(1_000_000, 1000);
         let mut next_seq = base;
         let mut hi_ack = base;
         let windows = [1000, 1029, 1100, 2000, 2099, 2100, 11970, 11971, 12000, 20000, 59971, 59999, 60000];
